@@ -452,7 +452,7 @@ fn run_cont(c: &C12Cont, w: &WCtx) -> Result<Report, Failure> {
 }
 
 fn per_image(tier: Tier) -> u64 {
-    tier.pick(50, 500)
+    tier.pick(300, 3000)
 }
 
 impl Prop for C12 {
@@ -460,7 +460,7 @@ impl Prop for C12 {
         "C12"
     }
     fn rule(&self) -> String {
-        "15 golden images (5 key types x {inserts only / deletes+overwrites+re-inserts with non-empty free lists / large slots with a free large slot}; tables of 8, 128 and 1024 buckets) written by a build of the PINNED commit and committed with their expected contents and key placement. Per image: (1) the independent decoder (own placement hash, own vu64) recovers exactly expected.json incl. each key's bucket; (2) the current build opens it (with other parameters than at creation): len, every key, deleted keys, full iteration, statistics; (3) files byte-identical after that read-only use; (5) the current build re-executes the image's history: same contents, same placement, byte-identical files; (4) 50 (thorough: 500) seeded random continuation histories per image (updates, flush/sync, iteration, batches, clean reopen) against the model seeded from expected.json with decode + tiling checks at every sync and close. evaluations = static image checks + continuations. Non-trivial: a continuation that overwrites or deletes a golden-era record; distinct by case digest."
+        "15 golden images (5 key types x {inserts only / deletes+overwrites+re-inserts with non-empty free lists / large slots with a free large slot}; tables of 8, 128 and 1024 buckets) written by a build of the PINNED commit and committed with their expected contents and key placement. Per image: (1) the independent decoder (own placement hash, own vu64) recovers exactly expected.json incl. each key's bucket; (2) the current build opens it (with other parameters than at creation): len, every key, deleted keys, full iteration, statistics; (3) files byte-identical after that read-only use; (5) the current build re-executes the image's history: same contents, same placement, byte-identical files; (4) 300 (thorough: 3000) seeded random continuation histories per image (updates, flush/sync, iteration, batches, clean reopen) against the model seeded from expected.json with decode + tiling checks at every sync and close. evaluations = static image checks + continuations. Non-trivial: a continuation that overwrites or deletes a golden-era record; distinct by case digest."
             .to_string()
     }
     fn assumptions(&self) -> Vec<String> {
